@@ -668,7 +668,8 @@ def _fills_for(q):
 
 def g_kern_split_mid(tier, seed):
     """the spine splits inside the measure (after 1 or 2 events of the main spine), merged at the barline; every
-    sub-spine filling of the remaining length; measure 1 or 2; alone / second spine left / right / same part"""
+    sub-spine filling of the remaining length; measure 1 or 2; alone / second spine left / right / same part with the
+    splitting spine first / same part with the splitting spine second"""
     mains = [[lf("n", 4), lf("n", 4), lf("n", 2)], [lf("n", 2), lf("n", 2)], [lf("n", 4, 1), lf("n", 8), lf("n", 2)], [lf("r", 4), lf("c", 4), lf("n", 2)]]
     fs = fillings((4, 4), "kern")
     for mi_split in (0, 1):
@@ -677,7 +678,7 @@ def g_kern_split_mid(tier, seed):
                 rem = 4 - sum((M.leaf_dur(e) for e in main[:at]), F(0))
                 for sub in _fills_for(rem):
                     assert M.seq_len(sub, (4, 4)) == rem
-                    for other in (None, "left", "right", "same"):
+                    for other in (None, "left", "right", "same", "same-left"):
                         ms = [reindex(main if mi == mi_split else fs[(mi + at) % 5], mi * 3) for mi in range(2)]
                         spl = {str(mi_split): {"at": at, "sub": reindex(sub, 5)}}
                         if other is None:
@@ -688,8 +689,13 @@ def g_kern_split_mid(tier, seed):
                                 doc = kern_doc([oth, ms], splits=[None, spl], staffs=[2, 1])
                             elif other == "right":
                                 doc = kern_doc([ms, oth], splits=[spl, None], staffs=[2, 1])
-                            else:
+                            elif other == "same":
                                 doc = kern_doc([ms, oth], splits=[spl, None], staffs=[2, 1], parts=["1", "1"], style={"same_part": "part"})
+                            else:
+                                # the later spine of the part splits (the first one may be inside a note there)
+                                doc = kern_doc([oth, ms], splits=[None, spl], staffs=[2, 1], parts=["1", "1"], style={"same_part": "part"})
+                                if "kern-interp-line-inside-note" in FIXES_PENDING and _split_inside_earlier_note(doc):
+                                    continue
                         yield {"f": "kern", "doc": doc}
 
 
@@ -726,6 +732,119 @@ def g_mixed(fmt, tier, seed):
                 c = {"f": "kern", "doc": d}
                 if tier == "thorough" or block_of(c, 2) == seed % 2:
                     yield c
+
+
+KERN_FORCE_BLOCKS = 6  # quick tier: hash block of the larger families of kern-force-same-part
+KERN_FORCE_STRUCT_BLOCKS = 48  # ... of its kern-structure family (9360 documents)
+FORCE = {"force_same_part": True}
+# how the spines of a file are marked: (style key, interpretation) -> kern_doc arguments
+FORCE_MARKS = [("none", None), ("diff", "part"), ("diff", "I"), ("same", "part"), ("same", "I")]
+
+
+def _marked(nsp, mark):
+    """(style, parts) for nsp spines carrying no / different / identical *part or *I interpretations"""
+    style, parts = {}, [str(i + 1) for i in range(nsp)]
+    if mark[0] == "same":
+        style["same_part"] = mark[1]
+        parts = ["1"] * nsp if mark[1] == "part" else ["piano"] * nsp
+    elif mark[0] == "diff":
+        style["diff_part"] = mark[1]
+    return style, parts
+
+
+def _split_inside_earlier_note(doc):
+    """a spine other than the first one splits at a place where the first spine is inside a sounding event (the line
+    of the '*^' is not an event boundary of the first spine)"""
+    for si, sp in enumerate(doc["spines"]):
+        if si == 0:
+            continue
+        for mi_s, spec in sorted((sp.get("split") or {}).items()):
+            at, _ = M.split_spec(spec)
+            mi = int(mi_s)
+            off = sum((M.leaf_dur(l, t) for l, t in M.flatten(sp["m"][mi])[:at]), F(0))
+            bounds, pos = {F(0)}, F(0)
+            for l, t in M.flatten(doc["spines"][0]["m"][mi]):
+                pos += M.leaf_dur(l, t)
+                bounds.add(pos)
+            if off not in bounds:
+                return True
+    return False
+
+
+def g_kern_force_same_part(tier, seed):
+    """load_kern(filename, force_same_part=True): all spines of the file become voices of ONE part whatever they
+    declare; every note keeps the onset, duration, spelling and staff its notation denotes and the divisions of that
+    one part serve every spine (first or later).  Families (each enumerated completely; quick takes hash blocks of
+    the larger ones):
+    (a) 2 spines x 1 measure x every ordered pair of the 6 RICH fillings (different subdivisions) x 5 part markings x
+        staff declarations {2|1, none, 1|2, 1|1}; 2 spines x 2 measures x RICH^4 x {unmarked, *part different}
+    (b) 3 spines x 1 measure x RICH^3, unmarked, staves 3|2|1 and none declared
+    (c) the kern-structure documents with 2 spines (meter x key x clef x marking x staves x first/final barline)
+    (d) the kern-layout documents with 2 separate spines (5^4 fillings) and the kern-changes documents with 2 spines
+    (e) spine splits next to a second spine (kern-split, kern-split-mid) and the two-spine tie documents"""
+    def mk(doc):
+        return {"f": "kern", "doc": doc, "opt": dict(FORCE)}
+
+    def take(c, nb=KERN_FORCE_BLOCKS):
+        return tier == "thorough" or block_of(c, nb) == seed % nb
+
+    # (a) subdivisions
+    nr = len(RICH)
+    for i, j in itertools.product(range(nr), repeat=2):
+        for mark in FORCE_MARKS:
+            for staffs in ([2, 1], None, [1, 2], [1, 1]):
+                if mark[0] == "same" and staffs is None:
+                    continue
+                style, parts = _marked(2, mark)
+                c = mk(kern_doc([[reindex(RICH[i], 0)], [reindex(RICH[j], 2)]], staffs=staffs, parts=parts, style=style))
+                if staffs in ([2, 1], None) or take(c):
+                    yield c
+    for choice in itertools.product(range(nr), repeat=4):
+        a = [reindex(RICH[choice[0]], 0), reindex(RICH[choice[1]], 1)]
+        b = [reindex(RICH[choice[2]], 2), reindex(RICH[choice[3]], 3)]
+        for mark in FORCE_MARKS[:2]:
+            style, parts = _marked(2, mark)
+            # (the hash block is taken over the choice, which determines the document)
+            if take(["force-2m", list(choice), list(mark)], KERN_FORCE_BLOCKS + 2):
+                yield mk(kern_doc([b, a], staffs=[2, 1], parts=parts, style=style))
+    # (b) three spines
+    for choice in itertools.product(range(nr), repeat=3):
+        for staffs in ([3, 2, 1], None):
+            c = mk(kern_doc([[reindex(RICH[x], 2 * s)] for s, x in enumerate(choice)], staffs=staffs))
+            if staffs or take(c):
+                yield c
+    # (c) declarations
+    for c in g_kern_structure("thorough", 0):
+        d = c["doc"]
+        if len(d["spines"]) != 2:
+            continue
+        st = [sp["staff"] for sp in d["spines"]]
+        if st[0] == st[1] and d["spines"][0]["clef"] != d["spines"][1]["clef"]:
+            # forced onto one staff of one part: one clef (two different clefs at the same place on one staff would
+            # leave the clef in force open)
+            d["spines"][0]["clef"] = d["spines"][1]["clef"]
+        # hash block over the declarations (they determine the document: the fillings follow from meter and spine)
+        key = ["force-structure", d["meter"], d["key"], d["kern"], [[sp["staff"], sp["clef"], sp["part"]] for sp in d["spines"]]]
+        if take(key, KERN_FORCE_STRUCT_BLOCKS) or (tuple(d["meter"]) == (4, 4) and d["key"][0] == 0):
+            yield mk(d)
+    # (d) fillings and changes
+    for c in g_kern_layout(tier, seed):
+        if len(c["doc"]["spines"]) == 2 and not c["doc"]["kern"].get("same_part"):
+            c = mk(c["doc"])
+            if take(c):
+                yield c
+    for c in g_kern_changes(tier, seed):
+        if len(c["doc"]["spines"]) == 2:
+            yield mk(c["doc"])
+    # (e) splits and ties
+    pending = "kern-interp-line-inside-note" in FIXES_PENDING
+    for g in (g_kern_split, g_kern_split_mid):
+        for c in g(tier, seed):
+            if len(c["doc"]["spines"]) == 2 and not (pending and _split_inside_earlier_note(c["doc"])):
+                yield mk(c["doc"])
+    for c in g_ties("kern", tier, seed):
+        if len(c["doc"]["spines"]) == 2:
+            yield mk(c["doc"])
 
 
 def g_kern_partial_part(tier, seed):
@@ -966,7 +1085,11 @@ def g_roundtrip(fmt, tier, seed):
 #   mei-export-empty-staff  save_mei raises ValueError (numpy vectorize on an empty array) for a measure in which a
 #                           lower-numbered staff holds no note or rest while a higher one does
 #   load-score-pathlike     load_score raises AttributeError in is_url for every os.PathLike argument (pathlib.Path)
-FIXES_PENDING = ()
+#   kern-interp-line-inside-note  load_kern, spines of ONE part (same *part/*I or force_same_part=True): the first spine
+#                           records an interpretation line (the '*' beside a later spine's '*^') at the END of the note
+#                           it is sounding, and the later spine jumps forward to that position: its notes after a split
+#                           inside the measure come too late
+FIXES_PENDING = ("kern-interp-line-inside-note",)
 
 
 def _empty_lower_staff(doc):
@@ -1170,6 +1293,12 @@ def g_dispatch(tier, seed):
     yield {"f": "disp", "fmt": "kern", "ext": ".txt", "doc": kern_doc([[evs]]), "wrong": True}
 
 
+def _pending_note(name, what):
+    if name not in FIXES_PENDING:
+        return ""
+    return "; LEFT OUT until proposed_fixes/C19-s-%s.diff is applied: %s" % (name, what)
+
+
 def spaces(tier, seed):
     def sp(name, gen, bounds, *a):
         return Space(name, (lambda: gen(*a, tier, seed)), exhaustive=True, bounds=bounds)
@@ -1209,9 +1338,19 @@ def spaces(tier, seed):
         sp("kern-changes", g_kern_changes, "meter {4/4,3/4,6/8}^2 x key change x at measure 2/3 x 1-2 spines"),
         sp("kern-split", g_kern_split, "spine split for measure 1 or 2: 5 main fillings x 5 sub-spine fillings x {alone, second spine left, right}"),
         sp("kern-split-mid", g_kern_split_mid, "spine split after 1 or 2 events of 4 main fillings x every sub-spine filling of the remaining "
-           "length x measure 1/2 x {alone, second spine left/right, second spine of the same part}"),
+           "length x measure 1/2 x {alone, second spine left/right, second spine of the same part after / before the splitting spine}"
+           + _pending_note("kern-interp-line-inside-note", "same-part documents whose second spine splits while the first spine is inside a note")),
         sp("mei-mixed", g_mixed, "2 layers or 2 staves x 2 measures x 6 fillings with different subdivisions (6^4 combinations)" + q, "mei"),
         sp("kern-mixed", g_mixed, "2 spines (separate parts / one part) x 2 measures x the same 6 fillings (6^4 combinations)" + q, "kern"),
+        sp("kern-force-same-part", g_kern_force_same_part, "load_kern(filename, force_same_part=True) - expected: ONE part, every spine a voice, "
+           "notes/staves/measures/signatures as the notation denotes, divisions exact for every spine: 2 spines x 1 measure x all 36 ordered pairs of the 6 "
+           "fillings of kern-mixed x part marking {none, *part diff, *I diff, *part same, *I same} x staves {2|1, undeclared, 1|2, 1|1}; 2 spines x 2 "
+           "measures x 6^4 fillings x {unmarked, *part diff}; 3 spines x 1 measure x 6^3 fillings x staves {3|2|1, undeclared}; the 2-spine documents of "
+           "kern-structure (one clef when both spines land on one staff), kern-layout (separate spines), kern-changes, kern-split, kern-split-mid, "
+           "kern-ties; quick: complete for the 1-measure pairs with staves 2|1 / undeclared, the 3-spine triples with staves 3|2|1, changes, splits, ties "
+           "and the structure documents in 4/4 without key signature; hash block VERIF_SEED of %d (2-measure family: of %d, structure: of %d) of the rest; "
+           "thorough: everything" % (KERN_FORCE_BLOCKS, KERN_FORCE_BLOCKS + 2, KERN_FORCE_STRUCT_BLOCKS)
+           + _pending_note("kern-interp-line-inside-note", "split documents whose second spine splits while the first spine is inside a note")),
         sp("kern-partial-part", g_kern_partial_part, "3 spines, two of them marked as one part (*part / *I), 5 fillings"),
         sp("kern-chord-ties", g_kern_chord_ties, "the mei-ties sequences whose ties touch a chord, written in kern"),
         sp("roundtrip-mei", g_roundtrip, "parts built through the public API: rhythm sequences (<=2 events, dots), 4 staff/voice layouts x fillings, "
@@ -1435,7 +1574,7 @@ def eval_load(case, res, loader_name=None, path_ext=None):
         ext = path_ext or ".mei"
     else:
         text = M.kern_text(doc)
-        ref = M.reference_kern(doc)
+        ref = M.reference_kern(doc, force_same_part=bool((case.get("opt") or {}).get("force_same_part")))
         ext = path_ext or ".krn"
     folder = _tmpdir()
     if case.get("dir"):
@@ -1468,7 +1607,9 @@ def eval_load(case, res, loader_name=None, path_ext=None):
 
             arg = pathlib.Path(arg)
         res.transitions += 1
-        ok, score = _call(res, clause, fn, arg)
+        # keyword options of the reader itself (load_score has none of them)
+        opts = dict(case.get("opt") or {}) if loader_name is None else {}
+        ok, score = _call(res, clause, fn, arg, **opts)
     finally:
         if cwd is not None:
             os.chdir(cwd)
